@@ -75,6 +75,8 @@ def make_ops(model: Model):
                 if k == "RAW" and not _type_checked(f, n, a0):
                     out.append(("ValueError", unparse(n)))
                     out.append(("TypeError", unparse(n)))
+                    # float(<integer of 400 digits>) and int(<inf>): a number token may be as long as the file
+                    out.append(("OverflowError", unparse(n)))
                 elif texty(f, a0) and not _fullmatch_guard(f, n, a0):
                     out.append(("ValueError", unparse(n)))
             elif d == "chr" and n.args and not isinstance(n.args[0], ast.Constant):
